@@ -114,10 +114,12 @@ def dupKeys : List (Option SKey) → List SKey → Bool
   | none :: rest, seen => dupKeys rest seen
   | some k :: rest, seen => if seen.contains k then true else dupKeys rest (k :: seen)
 
-/-- `buildConstantStruct`: all keys must be string literals; a later duplicate key wins. -/
+/-- `buildConstantStruct`: all keys must be string literals, and no key may be given twice (since the
+repair of finding D95: one of the values would survive and the other never be checked). -/
 def buildStruct : List (CV × CV) → List (Name × CV) → Option (List (Name × CV))
   | [], acc => some acc
-  | (.str s, v) :: rest, acc => buildStruct rest (aset s v acc)
+  | (.str s, v) :: rest, acc =>
+    if (alookup s acc).isSome then none else buildStruct rest (aset s v acc)
   | _ :: _, _ => none
 
 
